@@ -21,7 +21,7 @@ from ..seq import Layouts, UNKNOWN, show
 
 COV = "inference/gp/covariance.py"
 MEAN = "inference/gp/mean.py"
-FLOORS = {"changepoint-instance": 4, "difference-before-square": 1, "float-arithmetic": 2, "builder-vs-pairwise": 4, "value-sibling": 4, "gradient-is-derivative": 9, "changepoint-siblings": 4,
+FLOORS = {"changepoint-instance": 8, "difference-before-square": 1, "float-arithmetic": 2, "builder-vs-pairwise": 4, "value-sibling": 4, "gradient-is-derivative": 9, "changepoint-siblings": 4,
           "composition-order": 4, "mean-sibling": 3, "mean-gradient": 3, "composite-structure": 3, "pairwise-axes": 10,
           "changepoint-shared-inplace": 3, "arguments-not-mutated": 60, "overflow-safe": 8}
 
@@ -190,8 +190,9 @@ def run(prog, tier):
     # ---------------------------------------------------------------- change-point recurrence: three copies agree
     obs.extend(_changepoint(prog, cp))
     obs.extend(_changepoint_instance(prog, cp, 3))
+    obs.extend(_changepoint_instance(prog, cp, 4))      # the first size with a change-point that has neighbours on both sides AND an end one
     if tier == "thorough":
-        for n_k in (4, 5, 6):
+        for n_k in (5, 6):
             obs.extend(_changepoint_instance(prog, cp, n_k))
 
     # ---------------------------------------------------------------- composites
